@@ -437,6 +437,13 @@ def t_new_in(vfg, ins, site):
     return out
 
 
+def t_builder_in(vfg, ins, site):
+    out = set()
+    for b in (ins[1] if len(ins) > 1 else ()):
+        out.add("STAGING_FILE" if b == "STAGING" else "TEMP_IN:" + b)
+    return out
+
+
 SPECIAL = {
     "std::path::Path::join": t_join,
     "std::path::Path::with_extension": t_with_extension,
@@ -446,6 +453,8 @@ SPECIAL = {
     "std::path::Path::read_dir": t_read_dir,
     "tempfile::NamedTempFile::new_in": t_new_in,
     "tempfile::tempfile_in": t_new_in,
+    "tempfile::Builder::tempfile_in": t_builder_in,
+    "tempfile::Builder::make_in": t_builder_in,
 }
 
 
